@@ -1,4 +1,5 @@
 """Parsing of the shim's event log and construction of fault plans."""
+import os
 import re
 
 
@@ -16,6 +17,13 @@ def unesc(s):
             out.append(b[i])
             i += 1
     return bytes(out)
+
+
+def _norm(p):
+    """Lexical normalisation of absolute paths (fclones builds e.g. DIR/./abs/path)."""
+    if p.startswith(b"/"):
+        return os.path.normpath(p)
+    return p
 
 
 class Event:
@@ -56,8 +64,10 @@ def parse(path):
             e.ret = int(m.group(6))
             e.errno = int(m.group(7))
             e.x = int(m.group(8))
-            e.p1 = unesc(m.group(9))
-            e.p2 = unesc(m.group(10)) if m.group(10) is not None else None
+            e.p1 = _norm(unesc(m.group(9)))
+            e.p2 = _norm(unesc(m.group(10))) if m.group(10) is not None else None
+            if e.op == "symlink" and m.group(10) is not None:
+                e.p2 = unesc(m.group(10))  # a link target is stored verbatim
             events.append(e)
             continue
         m = FIRED.match(l)
